@@ -1,23 +1,24 @@
 CONSTANTS
-  Mode = "wf"
-  N = 3
-  MaxEdges = 4
+  Mode = "pregel"
+  N = 2
+  MaxEdges = 3
   MaxBr = 1
-  D = 0
+  D = 2
   MaxMarks = 1
   AllowRerun = FALSE
   AllowFail = FALSE
   AllowMulti = FALSE
-  MaxChoice = {0}
+  MaxChoice = {3}
   MaxEnds = 2
   AllowOrphans = FALSE
   StartCheck = TRUE
   MaxCalls = 3
-  SubNode = "none"
+  SubNode = "b"
   InnerBefore = FALSE
-  InnerAfter = FALSE
+  InnerAfter = TRUE
   StaleForward = FALSE
 INIT Init
 NEXT Next
 INVARIANT RuleHolds
+INVARIANT StepBound
 CHECK_DEADLOCK FALSE
